@@ -555,9 +555,10 @@ Varable failures: {var_failed}
                 dt = np.diff(times)
                 if not (dt[0] == dt).all():
                     warn('New time is unstructured')
-                outf.TSTEP = int(
-                    (datetime.datetime(1900, 1, 1, 0) +
-                     dt[0]).strftime('%H%M%S'))
+                # HHHMMSS from the whole step (hours may exceed 23)
+                dtsec = int(dt[0].total_seconds())
+                outf.TSTEP = (dtsec // 3600 * 10000 +
+                              dtsec % 3600 // 60 * 100 + dtsec % 60)
 
         outf.updatemeta()
         return outf
